@@ -178,7 +178,7 @@ def run_contents(cfg, out):
             for pid, rec in run.app.sends.items():
                 if rec["retry"] == -1 and rec["refused"] is None and rec["status_at_send"] == 2 and not rec.get("small"):
                     if not run.app.deliveries.get(pid):
-                        if rec["len"] > run.C.Packet.MAX_PAYLOAD_SIZE and T.expired_signature(run, rec):
+                        if rec.get("fragmented", rec["len"] > run.C.Packet.MAX_PAYLOAD_SIZE) and T.expired_signature(run, rec):
                             run.c.inc("undelivered_known_context_expiry")
                             continue
                         run.report("C06", "size-never-reassembled", "payload of %d bytes (MTU %d) was never reassembled/delivered over a healed network; %s" % (
